@@ -86,8 +86,8 @@ fn binop_driver(t: &Tier, m: &mut Matrix, sink: &mut Sink, ops: &[&'static str],
     let mut rng = Rng::new(t.seed ^ 0xC01);
     let max_len = t.q(129, 257);
     let heavy_len = t.q(66, 130);
-    let xs = pool(t, &mut rng, max_len, t.quick, t.q(1, 3));
-    let per_x = t.q(2, 5);
+    let xs = pool(t, &mut rng, max_len, t.quick, t.q(1, 6));
+    let per_x = t.q(2, 10);
     for x in &xs {
         for op in ops.iter().copied() {
             if heavy.contains(&op) && x.len() > heavy_len {
@@ -105,7 +105,7 @@ fn binop_driver(t: &Tier, m: &mut Matrix, sink: &mut Sink, ops: &[&'static str],
             }
             // native integer operand
             if op != "div_rem" {
-                for _ in 0..t.q(1, 3) {
+                for _ in 0..t.q(1, 5) {
                     let (ty, mut v) = pick_int(&mut rng);
                     if is_div && v == 0 {
                         v = 3;
@@ -117,7 +117,7 @@ fn binop_driver(t: &Tier, m: &mut Matrix, sink: &mut Sink, ops: &[&'static str],
     }
     // zero and empty divisors must panic in every pairing and form
     if zero_div {
-        let subjects = sample(&mut rng, &xs, t.q(12, 60));
+        let subjects = sample(&mut rng, &xs, t.q(12, 120));
         for x in &subjects {
             for op in ["div", "rem", "div_rem"] {
                 if !ops.contains(&op) {
@@ -138,7 +138,7 @@ fn binop_driver(t: &Tier, m: &mut Matrix, sink: &mut Sink, ops: &[&'static str],
     // (u128::wmul high parts only matter beyond 128 bits), carries across every word boundary
     if !heavy.is_empty() {
         let wide_lens = [129usize, 130, 191, 192, 193, 255, 256, 257];
-        for i in 0..t.q(36, 300) {
+        for i in 0..t.q(36, 900) {
             let n = wide_lens[i % wide_lens.len()];
             let ylen = *rng.pick(&[n, 128, 64, 129, 256, 200]);
             let shape = |rng: &mut Rng, len: usize, k: usize| -> Bits {
@@ -176,8 +176,8 @@ fn binop_driver(t: &Tier, m: &mut Matrix, sink: &mut Sink, ops: &[&'static str],
         }
     }
     // dense small random cases (both operands short: every kind takes part)
-    for _ in 0..t.q(200, 3000) {
-        let n = rng.below(t.q(20, 40));
+    for _ in 0..t.q(200, 20000) {
+        let n = rng.below(t.q(20, 48));
         let x = random_bits(&mut rng, n);
         let op = *rng.pick(ops);
         let is_div = matches!(op, "div" | "rem" | "div_rem");
@@ -225,12 +225,12 @@ pub fn shift_amounts(n: usize, ty: IntTy) -> Vec<u128> {
 
 pub fn drive_c05(t: &Tier, m: &mut Matrix, sink: &mut Sink) {
     let mut rng = Rng::new(t.seed ^ 0xC05);
-    let xs = pool(t, &mut rng, t.q(129, 257), true, t.q(1, 2));
+    let xs = pool(t, &mut rng, t.q(129, 257), t.quick, t.q(1, 5));
     for x in &xs {
         for op in ["shl", "shr"] {
             let ty = *rng.pick(&ALL_INTS);
             let ks = shift_amounts(x.len(), ty);
-            for k in sample(&mut rng, &ks, t.q(4, 12)) {
+            for k in sample(&mut rng, &ks, t.q(4, 24)) {
                 let a = Args { n: Some(k), ity: Some(ty), ..Default::default() };
                 sink.emit(m.run(&Case::new(op, x.clone()).a(a).forms(&FORMS6)));
             }
@@ -243,7 +243,7 @@ pub fn drive_c05(t: &Tier, m: &mut Matrix, sink: &mut Sink) {
         }
     }
     // every amount type at its extremes, on a handful of subjects
-    for x in sample(&mut rng, &xs, t.q(6, 30)) {
+    for x in sample(&mut rng, &xs, t.q(6, 120)) {
         for ty in ALL_INTS {
             for k in shift_amounts(x.len(), ty).into_iter().rev().take(t.q(4, 9)) {
                 for op in ["shl", "shr"] {
@@ -261,14 +261,14 @@ pub fn drive_c05(t: &Tier, m: &mut Matrix, sink: &mut Sink) {
 
 pub fn drive_c06(t: &Tier, m: &mut Matrix, sink: &mut Sink) {
     let mut rng = Rng::new(t.seed ^ 0xC06);
-    let xs = pool(t, &mut rng, t.q(129, 257), t.quick, t.q(2, 4));
+    let xs = pool(t, &mut rng, t.q(129, 257), t.quick, t.q(2, 10));
     for x in &xs {
         let n = x.len();
         let mut ks: Vec<usize> = vec![0, 1, 2, 7, 8, 9, 15, 16, 17, 31, 32, 33, 63, 64, 65, 127, 128, 129, n / 2, n.saturating_sub(1), n, n.saturating_sub(8), n.saturating_sub(64)];
         ks.retain(|k| *k <= n);
         ks.sort();
         ks.dedup();
-        for k in sample(&mut rng, &ks, t.q(4, 10)) {
+        for k in sample(&mut rng, &ks, t.q(4, 24)) {
             for op in ["rotl", "rotr"] {
                 sink.emit(m.run(&Case::new(op, x.clone()).a(Args::n(k))));
             }
@@ -282,14 +282,14 @@ pub fn drive_c06(t: &Tier, m: &mut Matrix, sink: &mut Sink) {
 
 pub fn drive_c08(t: &Tier, m: &mut Matrix, sink: &mut Sink) {
     let mut rng = Rng::new(t.seed ^ 0xC08);
-    let xs = pool(t, &mut rng, t.q(193, 257), t.quick, t.q(2, 4));
+    let xs = pool(t, &mut rng, t.q(193, 257), t.quick, t.q(2, 8));
     for x in &xs {
         let n = x.len();
         let mut pts: Vec<usize> = BOUNDARY.iter().copied().filter(|p| *p <= n).collect();
         pts.extend([n, n.saturating_sub(1), n / 2]);
         pts.sort();
         pts.dedup();
-        for _ in 0..t.q(4, 12) {
+        for _ in 0..t.q(4, 40) {
             let s = *rng.pick(&pts);
             let e = *rng.pick(&pts);
             let (s, e) = if s <= e { (s, e) } else { (e, s) };
@@ -301,7 +301,7 @@ pub fn drive_c08(t: &Tier, m: &mut Matrix, sink: &mut Sink) {
             let a = Args { i: Some(s), j: Some(e), ..Default::default() };
             sink.emit(m.run(&Case::new("copy_range", x.clone()).a(a)));
         }
-        for i in sample(&mut rng, &pts, t.q(3, 8)) {
+        for i in sample(&mut rng, &pts, t.q(3, 16)) {
             let a = Args { i: Some(i), ..Default::default() };
             sink.emit(m.run(&Case::new("split_off", x.clone()).a(a.clone())));
             sink.emit(m.run(&Case::new("split", x.clone()).a(a)));
@@ -317,7 +317,7 @@ pub fn drive_c08(t: &Tier, m: &mut Matrix, sink: &mut Sink) {
 
 pub fn drive_c09(t: &Tier, m: &mut Matrix, sink: &mut Sink) {
     let mut rng = Rng::new(t.seed ^ 0xC09);
-    let xs = pool(t, &mut rng, t.q(193, 257), t.quick, t.q(1, 3));
+    let xs = pool(t, &mut rng, t.q(193, 257), t.quick, t.q(1, 6));
     let ops = ["eq", "ne", "lt", "le", "gt", "ge", "pcmp"];
     for x in &xs {
         let n = x.len();
@@ -349,8 +349,8 @@ pub fn drive_c09(t: &Tier, m: &mut Matrix, sink: &mut Sink) {
         }
     }
     // Ord::cmp within each type, all operators on one pair
-    for _ in 0..t.q(150, 1500) {
-        let n = random_len(&mut rng, 200);
+    for _ in 0..t.q(150, 8000) {
+        let n = random_len(&mut rng, 257);
         let x = random_bits(&mut rng, n);
         let y = if rng.chance(1, 3) { x.clone() } else { operand_for(&mut rng, n, 200, false) };
         for k in ALL_KINDS {
@@ -374,7 +374,7 @@ pub const COUNT_OPS: [&str; 6] = ["leading_zeros", "leading_ones", "trailing_zer
 
 pub fn drive_c16(t: &Tier, m: &mut Matrix, sink: &mut Sink) {
     let mut rng = Rng::new(t.seed ^ 0xC16);
-    let mut xs = pool(t, &mut rng, t.q(193, 257), false, t.q(2, 5));
+    let mut xs = pool(t, &mut rng, t.q(193, 257), false, t.q(2, 12));
     // runs ending at, one before and one after each word boundary, interrupted by one opposite bit
     for n in lattice_lens(t.q(193, 257)) {
         for k in BOUNDARY.iter().copied().filter(|k| *k <= n) {
@@ -409,8 +409,9 @@ pub fn drive_c13(t: &Tier, m: &mut Matrix, sink: &mut Sink) {
     let mut rng = Rng::new(t.seed ^ 0xC13);
     // every length 0..Ls, not only multiples of 8, plus the lattice
     let mut xs: Vec<Bits> = Vec::new();
-    for n in 0..t.q(26, 70) {
+    for n in 0..t.q(26, 140) {
         xs.push(ones(n));
+        xs.push(random_bits(&mut rng, n));
         xs.push(random_bits(&mut rng, n));
     }
     xs.extend(pool(t, &mut rng, t.q(193, 257), true, 1));
@@ -442,7 +443,7 @@ pub fn drive_c13(t: &Tier, m: &mut Matrix, sink: &mut Sink) {
         }
     }
     // read: streams with surplus set bits in the top byte, short input, extra input
-    let mut lens: Vec<usize> = (0..t.q(34, 80)).collect();
+    let mut lens: Vec<usize> = (0..t.q(34, 150)).collect();
     lens.extend(lattice_lens(t.q(193, 257)));
     for n in lens {
         let nb = (n + 7) / 8;
@@ -451,7 +452,7 @@ pub fn drive_c13(t: &Tier, m: &mut Matrix, sink: &mut Sink) {
             if extra < 0 && nb == 0 {
                 continue;
             }
-            for style in 0..t.q(2, 4) {
+            for style in 0..t.q(2, 6) {
                 let stream: Vec<u8> = (0..sl).map(|_| if style == 0 { 0xFF } else { rng.next() as u8 }).collect();
                 for e in ['L', 'B'] {
                     let a = Args { e: Some(e), bytes: Some(stream.clone()), n: Some(n as u128), ..Default::default() };
@@ -497,7 +498,7 @@ pub fn drive_c14(t: &Tier, m: &mut Matrix, sink: &mut Sink) {
     for i in [0usize, 7, 123456] {
         sink.emit(m.run(&Case::new("err_display", vec![]).a(Args { i: Some(i), ..Default::default() }).xk(vec![Kind::D])));
     }
-    let per = t.q(3, 10);
+    let per = t.q(3, 30);
     let xs = if t.quick { sample(&mut rng, &xs, 500) } else { xs };
     for x in xs {
         for i in 0..per {
@@ -633,7 +634,7 @@ pub fn drive_c15(t: &Tier, m: &mut Matrix, sink: &mut Sink) {
     }
     // parse(format(v)) has the value of v: {:b} {:x} {:X} of lattice values, re-parsed
     let xs = pool(t, &mut rng, t.q(129, 257), true, 1);
-    for x in sample(&mut rng, &xs, t.q(60, 400)) {
+    for x in sample(&mut rng, &xs, t.q(60, 1500)) {
         for (base, op) in [('b', "from_binary"), ('x', "from_hex"), ('X', "from_hex")] {
             let spec = FmtSpec { base, alt: false, plus: false, zero: false, width: None, fill: ' ', align: '-' };
             let k = *rng.pick(&ALL_KINDS.iter().copied().filter(|k| k.admits(x.len())).collect::<Vec<_>>());
@@ -666,7 +667,7 @@ pub fn drive_c11(t: &Tier, m: &mut Matrix, sink: &mut Sink) {
                 vals = (0..65536).collect();
             }
         }
-        for _ in 0..t.q(10, 60) {
+        for _ in 0..t.q(10, 400) {
             vals.push(rng.u128() & ty.max());
         }
         for v in vals {
@@ -677,7 +678,7 @@ pub fn drive_c11(t: &Tier, m: &mut Matrix, sink: &mut Sink) {
     // slices of 0..5 elements of each element type
     for ty in ALL_INTS {
         for count in 0..6 {
-            for _ in 0..t.q(2, 8) {
+            for _ in 0..t.q(2, 30) {
                 let lat = int_lattice(ty.width());
                 let els: Vec<Bits> = (0..count).map(|_| int_bits(if rng.chance(1, 2) { *rng.pick(&lat) } else { rng.u128() & ty.max() }, ty.width())).collect();
                 let a = Args { els: Some(els), ity: Some(ty), ..Default::default() };
@@ -687,10 +688,10 @@ pub fn drive_c11(t: &Tier, m: &mut Matrix, sink: &mut Sink) {
     }
     // vectors -> integers: every small vector, lattice beyond, including empty
     let mut xs: Vec<Bits> = Vec::new();
-    for n in 0..t.q(7, 10) {
+    for n in 0..t.q(7, 12) {
         xs.extend(all_of_len(n));
     }
-    xs.extend(pool(t, &mut rng, t.q(193, 257), true, 2));
+    xs.extend(pool(t, &mut rng, t.q(193, 257), t.quick, t.q(2, 6)));
     for x in xs {
         for ty in ALL_INTS {
             if x.len() > 10 && !rng.chance(1, 2) {
@@ -743,7 +744,7 @@ pub fn bit_conversion_events(dbg: bool) -> Vec<Value> {
 
 pub fn drive_c12(t: &Tier, m: &mut Matrix, sink: &mut Sink) {
     let mut rng = Rng::new(t.seed ^ 0xC12);
-    let mut xs = pool(t, &mut rng, t.q(257, 257), t.quick, t.q(1, 3));
+    let mut xs = pool(t, &mut rng, t.q(257, 257), t.quick, t.q(1, 6));
     for n in 0..t.q(12, 30) {
         xs.push(random_bits(&mut rng, n));
     }
@@ -772,7 +773,7 @@ pub fn drive_c12(t: &Tier, m: &mut Matrix, sink: &mut Sink) {
 
 pub fn drive_c07_cases(t: &Tier, m: &mut Matrix, sink: &mut Sink) {
     let mut rng = Rng::new(t.seed ^ 0xC07);
-    let xs = pool(t, &mut rng, t.q(129, 193), true, t.q(1, 3));
+    let xs = pool(t, &mut rng, t.q(129, 257), t.quick, t.q(1, 6));
     for x in &xs {
         let n = x.len();
         // growth stays within what the subject kind can hold: only kinds that admit the RESULT are driven
@@ -796,7 +797,7 @@ pub fn drive_c07_cases(t: &Tier, m: &mut Matrix, sink: &mut Sink) {
             sink.emit(m.run(&Case::new("sign_extend", x.clone()).a(Args::n(nl)).xk(fit(nl.max(n)))));
             sink.emit(m.run(&Case::new("truncate", x.clone()).a(Args::n(nl))));
         }
-        for _ in 0..t.q(3, 8) {
+        for _ in 0..t.q(3, 16) {
             let y = operand_for(&mut rng, n, 140, false);
             let tot = n + y.len();
             sink.emit(m.run(&Case::new("append", x.clone()).y(YSpec::Bits(y.clone())).xk(fit(tot))));
